@@ -748,6 +748,30 @@ def ob_pauli_reject(probs, should_raise, form="ndarray"):
     return Obligation("constructor.pauli_channel.rejects_invalid_probability_vectors", cfg, build, call, oracle, exc_post=exc_post,
                       neg_control=False, tv=False)
 
+def history_obligations():
+    """round-6 seed: a constructor that memoises the arrays it hands out.  Every constructor, Kraus / Choi form and direct application."""
+    from props.common import HistoryTask
+    rho2 = np.array([[0.75, 0.25 - 0.125j], [0.25 + 0.125j, 0.25]])
+    rho3 = np.diag([0.5, 0.25, 0.25]) + 0.125 * (np.eye(3, k=1) + np.eye(3, k=-1))
+    calls = [
+        ("amplitude_damping(gamma=3/10, prob=7/10)", lambda: amplitude_damping(gamma=0.3, prob=0.7)),
+        ("amplitude_damping(gamma=3/10)", lambda: amplitude_damping(gamma=0.3)),
+        ("amplitude_damping(rho, gamma=3/10, prob=7/10)", lambda: [amplitude_damping(gamma=0.3, prob=0.7), amplitude_damping(rho2.copy(), gamma=0.3, prob=0.7)]),
+        ("phase_damping(gamma=1/4)", lambda: phase_damping(gamma=0.25)),
+        ("phase_damping(rho, gamma=1/4)", lambda: [phase_damping(gamma=0.25), phase_damping(rho2.copy(), gamma=0.25)]),
+        ("bitflip(prob=1/4)", lambda: bitflip(prob=0.25)),
+        ("bitflip(rho, prob=1/4)", lambda: [bitflip(prob=0.25), bitflip(rho2.copy(), prob=0.25)]),
+        ("depolarizing(3, 1/4)", lambda: depolarizing(3, 0.25)),
+        ("dephasing(3, 1/4)", lambda: dephasing(3, 0.25)),
+        ("reduction(3, 2)", lambda: reduction(3, 2)),
+        ("choi(1, 1, 0)", lambda: choi(1, 1, 0)),
+        ("pauli_channel([1/2,1/4,1/8,1/8], return_kraus_ops=True)", lambda: pauli_channel(np.array([0.5, 0.25, 0.125, 0.125]), return_kraus_ops=True)),
+        ("pauli_channel([1/2,1/4,1/8,1/8], input_mat=rho)", lambda: pauli_channel(np.array([0.5, 0.25, 0.125, 0.125]), input_mat=rho2.copy())),
+        ("kraus_to_choi(amplitude_damping(gamma=3/10))", lambda: kraus_to_choi(amplitude_damping(gamma=0.3))),
+        ("apply_channel(rho3, depolarizing(3, 1/4))", lambda: [depolarizing(3, 0.25), apply_channel(rho3.copy(), depolarizing(3, 0.25))]),
+    ]
+    return [HistoryTask("constructor.repeated_call_is_independent_of_what_the_caller_did_with_the_earlier_result", {"call": n}, f) for n, f in calls]
+
 
 def obligations(tier):
     T = tier == "thorough"
@@ -839,4 +863,5 @@ def obligations(tier):
         obs.append(ob_pauli_reject([F(1, 2)] * 4, True, form))
         obs.append(ob_pauli_reject([F(1, 2), F(1, 2)], True, form))
         obs.append(ob_pauli_reject([F(1, 4)] * 4, False, form))
+    obs += history_obligations()
     return obs
